@@ -167,122 +167,272 @@ def _impl_stub(t, etype, msg, lineno, offset):
 
 
 def correspond(ctx):
+  import concurrent.futures
   rng = ctx.rng
-  # 0. monitors on the interpreter: whitespace table, physical lines
-  import unicodedata  # noqa: F401
+  jobs = []          # (name, check, cases, used, what, shard)
+
+  # 0. monitors on the interpreter: whitespace table
   spaces = [c for c in range(0x110000) if chr(c).isspace()]
   spaces_re = [c for c in range(0x3100) if re.match(r'\s', chr(c))]
   if [c for c in spaces if c < 0x3100] != spaces_re or any(c >= 0x3100 for c in spaces):
     ctx.broken('monitor:whitespace', 'str.isspace and regex \\s disagree or a whitespace code point >= 0x3100 exists')
-  cps = sorted(set(list(range(0, 0x3100)) + [rng.randrange(0x3100, 0x110000) for _ in range(500)]))
-  cases = ['(%s, %s)' % (core.zlit(c), core.boollit(chr(c).isspace())) for c in cps]
-  bad = ctx.run_cases('isspace', IMPORTS, 'fun c => Bool.eqb (is_space (fst c)) (snd c)', cases, shard=5000)
-  for i in bad[:3]:
-    ctx.broken('correspondence:is_space', 'code point %d' % cps[i])
-  ctx.bump('corr:is_space code points', len(cps))
+  samples = [rng.randrange(0x3100, 0x110000) for _ in range(300)]
+  misc = ['(inl (%s, %s))' % (core.zlist(spaces_re), core.zlist(samples))]
+  ctx.bump('corr:is_space code points', 0x3100 + len(samples))
 
-  N = ctx.n(350, 6000)
+  N = ctx.n(250, 6000)
   texts = [gen_text(rng) for _ in range(N)]
   texts += ['', '\n', '\r', '\r\n', 'a\r', 'a\n', '\n\n', 'x = 1\rreturn x', 'foo(\rbar', '  a\r  b', '  a\r\n\r\n  b',
             '  a\n \n   b', '\ta\n\tb', ' \ta\n \tb\n', 'a\n\n', '  \n  x\n', 'a\r\n', '\x0c1', ' x\n  y\n z']
-  ctx._c19_texts = texts
 
-  ctx.log('monitors done')
   # 1. physical lines / universal newlines against CPython's tokenizer (string literal contents)
   cases, used = [], []
+  q3 = "'" * 3
   for t in texts:
     if any(ch in t for ch in '\'"\\\x00'):
       t = re.sub(r'[\'"\\\x00]', 'q', t)
     try:
-      v = ast.literal_eval("'''" + t + "'''")
+      v = ast.literal_eval(q3 + t + q3)
     except Exception as e:      # the tokenizer refuses the text for another reason
       ctx.bump('corr:phys skipped (%s)' % type(e).__name__)
       continue
     cases.append('(%s, %s)' % (S(t), S(v)))
     used.append(t)
     ctx.count(('phys', t), nontrivial=('\r' in t or '\n' in t), kind='corr:phys ' + kind_of_text(t))
-  bad = ctx.run_cases('phys', IMPORTS,
-                      'fun c => teq (join_nl (phys_lines (fst c))) (snd c) && teq (universal_newlines (fst c)) (snd c)'
-                      ' && teq (join_nl (lines_nl (fst c))) (fst c)',
-                      cases, shard=1500, extra_defs=EQ)
-  for i in bad[:3]:
-    ctx.broken('correspondence:phys_lines differs from the tokenizer', 'text %r' % (used[i],))
+  jobs.append(('phys', 'fun c => teq (join_nl (phys_lines (fst c))) (snd c) && teq (universal_newlines (fst c)) (snd c)'
+               ' && teq (join_nl (lines_nl (fst c))) (fst c)', cases, used,
+               'phys_lines/universal_newlines differ from the tokenizer on text', 2000))
 
-  ctx.log('phys done')
-  # 2. _indent
+  # 2./3. _indent, _dedent
   cases, used = [], []
   for t in texts:
     ind = rng.choice(INDENTS)
     out = _impl_indent(t, ind)
-    cases.append('(%s, %s, %s)' % (S(ind), S(t), S(out)))
+    ded = _impl_dedent(t)
+    cases.append('(%s, %s, %s, %s)' % (S(ind), S(t), S(out), S(ded)))
     used.append((ind, t))
     ctx.count(('indent', ind, t), nontrivial=(out != t), sample={'indent': ind, 'text': t, 'out': out},
               kind='corr:indent ' + kind_of_text(t))
-  bad = ctx.run_cases('indent', IMPORTS, 'fun c => teq (indent_re (fst (fst c)) (snd (fst c))) (snd c)',
-                      cases, shard=1500, extra_defs=EQ)
-  for i in bad[:3]:
-    ctx.broken('correspondence:indent_re differs from codebuilder._indent', 'case %r' % (used[i],))
-
-  ctx.log('indent done')
-  # 3. _dedent
-  cases, used = [], []
-  for t in texts:
-    out = _impl_dedent(t)
-    cases.append('(%s, %s)' % (S(t), S(out)))
-    used.append(t)
-    ctx.count(('dedent', t), nontrivial=(out != t), sample={'text': t, 'dedent': out},
+    ctx.count(('dedent', t), nontrivial=(ded != t), sample={'text': t, 'dedent': ded},
               kind='corr:dedent ' + kind_of_text(t))
-  bad = ctx.run_cases('dedent', IMPORTS, 'fun c => teq (dedent_re (fst c)) (snd c)', cases, shard=1500,
-                      extra_defs=EQ)
-  for i in bad[:3]:
-    ctx.broken('correspondence:dedent_re differs from codebuilder._dedent', 'text %r' % (used[i],))
+  jobs.append(('indent_dedent', 'fun c => match c with (ind, t, out, ded) => teq (indent_re ind t) out && '
+               'teq (dedent_re t) ded end', cases, used,
+               'indent_re/dedent_re differ from codebuilder._indent/_dedent on', 2000))
 
-  ctx.log('dedent done')
   # 4. _create_syntax_error_code (comment part, statement format, repr)
   cases, used = [], []
   for t in texts:
     if not t.strip():
       continue               # _do_make_formula_body never builds a stub for a blank formula
-    nl_lines = t.count('\n') + 1
-    lineno = rng.randint(1, nl_lines)
+    lineno = rng.randint(1, max(1, len(t.splitlines())))
+    lineno = min(lineno, t.count('\n') + 1)
     offset = rng.choice([None, 0, 1, 2, 5])
     etype = rng.choice(ERR_TYPES + ['Grist'])
-    msg = rng.choice(['invalid syntax', "it's", 'say "hi"', 'both \' and "', 'line\nbreak\r', 'é \x85\U0001d4b3',
+    msg = rng.choice(['invalid syntax', "it's", 'say "hi"', 'both \' and "', 'line\nbreak\r', '\xe9 \x85\U0001d4b3',
                       'back\\slash', gen_text(rng)])
     try:
       out, (name, message, line, col1, line_text) = _impl_stub(t, etype, msg, lineno, offset)
-    except Exception as e:
-      ctx.bump('corr:stub impl raised %s' % type(e).__name__)
-      ctx._c19_stub_raised = getattr(ctx, '_c19_stub_raised', []) + [(t, lineno, offset, repr(e))]
+    except IndexError:
+      ctx.bump('corr:stub skipped (line number beyond str.splitlines)')
       continue
     cases.append('(%s, %s, %s, %s, %s, %s, %s)' % (S(name), S(message), core.zlit(line), core.zlit(col1), S(line_text),
                                                    S(t), S(out)))
     used.append((t, name, message, line, col1, line_text))
     ctx.count(('stub', t, msg), nontrivial=True, sample={'text': t, 'stub': out}, kind='corr:stub ' + kind_of_text(t))
-  bad = ctx.run_cases('stub', IMPORTS,
-                      "fun c => match c with (name, msg, line, col1, ltext, t, out) => "
-                      "teq (stub_code printable name msg line col1 ltext t) out end",
-                      cases, shard=1000, extra_defs=EQ)
-  for i in bad[:3]:
-    ctx.broken('correspondence:stub_code differs from codebuilder._create_syntax_error_code', 'case %r' % (used[i],))
+  jobs.append(('stub', "fun c => match c with (name, msg, line, col1, ltext, t, out) => "
+               "teq (stub_code printable name msg line col1 ltext t) out end", cases, used,
+               'stub_code differs from codebuilder._create_syntax_error_code on', 1200))
 
-  ctx.log('stub done')
   # 5. repr of str / int
-  strs = [gen_text(rng) for _ in range(ctx.n(150, 3000))] + \
+  strs = [gen_text(rng) for _ in range(ctx.n(120, 3000))] + \
          [''.join(chr(rng.choice([rng.randrange(0, 0x300), rng.randrange(0x2000, 0x2100), rng.randrange(0xd7f0, 0xd800),
                                   rng.randrange(0xe000, 0x11000), rng.randrange(0xe0000, 0xe0200), 39, 34, 92]))
-                  for _ in range(rng.randint(0, 8))) for _ in range(ctx.n(150, 3000))]
-  cases = ['(%s, %s)' % (S(s), S(repr(s))) for s in strs]
-  bad = ctx.run_cases('repr', IMPORTS, 'fun c => teq (py_repr printable (fst c)) (snd c)', cases, shard=1500,
-                      extra_defs=EQ)
-  for i in bad[:3]:
-    ctx.broken('correspondence:py_repr differs from repr', 'string %r' % (strs[i],))
-  ints = [0, 1, 9, 10, 99, 100, 12345, -1, -10, 2 ** 40] + [rng.randrange(-50, 100000) for _ in range(200)]
-  cases = ['(%s, %s)' % (core.zlit(n), S(repr(n))) for n in ints]
-  bad = ctx.run_cases('dec', IMPORTS, 'fun c => teq (dec (fst c)) (snd c)', cases, shard=1500, extra_defs=EQ)
-  for i in bad[:3]:
-    ctx.broken('correspondence:dec differs from repr(int)', 'int %r' % (ints[i],))
+                  for _ in range(rng.randint(0, 8))) for _ in range(ctx.n(120, 3000))]
+  ints = [0, 1, 9, 10, 99, 100, 12345, -1, -10, 2 ** 40] + [rng.randrange(-50, 100000) for _ in range(100)]
+  misc += ['(inr (inl (%s, %s)))' % (S(x), S(repr(x))) for x in strs]
+  misc += ['(inr (inr (%s, %s)))' % (core.zlit(n), S(repr(n))) for n in ints]
+  jobs.append(('misc', 'fun c => match c with '
+               '| inl (sp, others) => teq (filter is_space (map Z.of_nat (seq 0 12544))) sp && '
+               'forallb (fun x => negb (is_space x)) others '
+               '| inr (inl (x, r)) => teq (py_repr printable x) r '
+               '| inr (inr (n, r)) => teq (dec n) r end', misc, ['whitespace table'] + strs + ints,
+               'is_space/py_repr/dec differ from str.isspace/repr on', 2000))
   ctx.bump('corr:repr strings', len(strs))
+
+  # 6. the `$name` translation, the Replacer's offsets, the placement into the module
+  formulas = [gen_formula(rng)[0] for _ in range(ctx.n(220, 5000))] + EXPRS + \
+             [st.replace('{E}', '$A').replace('{F}', '2') for st in STMTS]
+  c, u, chk = dollar_cases(ctx, formulas)
+  jobs.append(('dollar', chk, c, u, 'token-stream meaning / model translate differ from make_formula_body on', 1500))
+  c, u, chk = offsets_cases(ctx, formulas + texts)
+  jobs.append(('offsets', chk, c, u, 'tmp_text/get_input_pos differ from textbuilder.Replacer on', 1500))
+  ctx.bump('corr:replacer offsets texts', len(c))
+  c, u, chk = field_cases(ctx, formulas)
+  jobs.append(('field', chk, c, u, 'formula_field differs from GenCode._make_formula_field on', 1500))
+  ctx.bump('corr:formula fields', len(c))
+
+  ctx.log('correspondence cases generated: ' + ', '.join('%s=%d' % (j[0], len(j[2])) for j in jobs))
+
+  def run(job):
+    name, check, cases, _used, _what, shard = job
+    return job, ctx.run_cases(name, IMPORTS, check, cases, shard=shard, extra_defs=EQ)
+  with concurrent.futures.ThreadPoolExecutor(max_workers=4) as ex:
+    for job, bad in ex.map(run, jobs):
+      for i in bad[:3]:
+        ctx.broken('correspondence:' + job[4], '%r' % (job[3][i],))
+  ctx.log('correspondence evaluated')
+
+
+# ------------------------------------------------------------------------------------------------
+# `$name` translation: an independent token stream (tokenize) against the running make_formula_body and
+# against the model's `translate`
+
+def token_stream(f0):
+  """f0: a "\\n"-only text.  Returns (segments, mark_index) where segments are ('C'|'D'|'O', text) in source
+  order ('D' holds the name without the `$`), or raises if it does not tokenize."""
+  lines = f0.split('\n')
+  starts = [0]
+  for l in lines:
+    starts.append(starts[-1] + len(l) + 1)
+  off = lambda rc: min(starts[rc[0] - 1] + rc[1], len(f0))
+  toks = [t for t in tokenize.generate_tokens(io.StringIO(f0).readline)]
+  segs = []
+  pos = 0
+  i = 0
+  opaque = (tokenize.STRING, tokenize.COMMENT, getattr(tokenize, 'FSTRING_MIDDLE', -1))
+  while i < len(toks):
+    t = toks[i]
+    a, b = off(t.start), off(t.end)
+    if a < pos:                       # zero-width/overlapping bookkeeping tokens
+      i += 1
+      continue
+    if a > pos:
+      segs.append(('C', f0[pos:a]))
+    if t.type == tokenize.OP and t.string == '$' and i + 1 < len(toks) and toks[i + 1].type == tokenize.NAME \
+       and toks[i + 1].start == t.end:
+      nb = off(toks[i + 1].end)
+      segs.append(('D', f0[b:nb]))
+      pos = nb
+      i += 2
+      continue
+    if b > a:
+      segs.append(('O' if t.type in opaque else 'C', f0[a:b]))
+    pos = max(pos, b)
+    i += 1
+  if pos < len(f0):
+    segs.append(('C', f0[pos:]))
+  return segs
+
+
+def with_mark(segs):
+  """Inserts the mark where the last statement starts when it is an expression statement (found with ast on the
+  translated text); returns None when the formula is outside what the model covers."""
+  out_text = ''.join(('rec.' + s) if k == 'D' else s for k, s in segs)
+  tree = ast.parse(out_text)
+  if not tree.body:
+    return None
+  if any(isinstance(n, ast.Name) and n.id in LAZY for n in ast.walk(tree)):
+    return None
+  last = tree.body[-1]
+  if not isinstance(last, ast.Expr):
+    if not any(isinstance(n, ast.Return) for n in ast.walk(tree)):
+      return None
+    return list(segs)
+  line_starts = [0]
+  for l in out_text.split('\n'):
+    line_starts.append(line_starts[-1] + len(l) + 1)
+  line = out_text.split('\n')[last.lineno - 1]
+  target = line_starts[last.lineno - 1] + len(line.encode('utf8')[:last.col_offset].decode('utf8'))
+  res = []
+  pos = 0
+  placed = False
+  for k, s in segs:
+    if pos == target and not placed:
+      res.append(('M', ''))
+      placed = True
+    elif pos < target < pos + len(('rec.' + s) if k == 'D' else s) and not placed and k == 'C':
+      cut = target - pos
+      res.append(('C', s[:cut]))
+      res.append(('M', ''))
+      res.append(('C', s[cut:]))
+      placed = True
+      pos += len(s)
+      continue
+    res.append((k, s))
+    pos += len(('rec.' + s) if k == 'D' else s)
+  return res if placed else None
+
+
+def coq_tok(k, s):
+  return {'C': 'TCode %s', 'D': 'TDollar %s', 'O': 'TOpaque %s'}[k] % S(s) if k != 'M' else 'TMark'
+
+
+def dollar_cases(ctx, formulas):
+  import codebuilder
+  import textbuilder
+  cases, used = [], []
+  for f in formulas:
+    if '\r' in f or '\x0c' in f or '\x00' in f:
+      continue
+    try:
+      f0 = codebuilder._dedent(textbuilder.Text(f)).get_text()
+      body = codebuilder.make_formula_body(f, None).get_text()
+    except Exception:              # pylint: disable=broad-except
+      continue                     # escaping exceptions are the search's business
+    if not f.strip() or re.search(r'^raise \w+\(', body, re.M) and body.lstrip().startswith('#'):
+      continue                     # syntax-error stub
+    try:
+      segs = with_mark(token_stream(f0))
+    except Exception:              # pylint: disable=broad-except
+      segs = None
+    if segs is None:
+      ctx.bump('corr:dollar skipped (outside the model)')
+      continue
+    ks = core.coq_list([coq_tok(k, s) for k, s in segs])
+    cases.append('(%s, %s, %s)' % (ks, S(f0), S(body)))
+    used.append(f)
+    ctx.count(('dollar', f), nontrivial=('$' in f), sample={'formula': f, 'body': body}, kind='corr:dollar')
+  check = ('fun c => match c with (ks, f0, body) => forallb tok_wf ks && teq (src_of ks) f0 && teq (spec_of ks) body '
+           '&& teq (translate f0 (rev (name_offsets 0 ks)) (match mark_offsets 0 ks with p :: _ => Some p | [] => None end)) '
+           'body end')
+  return cases, used, check
+
+
+def offsets_cases(ctx, formulas):
+  """Replacer.get_input_pos / the temporary text against the model, on every output position."""
+  import codebuilder
+  import textbuilder
+  cases, used = [], []
+  for f in formulas:
+    if not f or len(f) > 60:
+      continue
+    patches = textbuilder.make_regexp_patches(f, codebuilder.DOLLAR_REGEX, 'DOLLAR')
+    rep = textbuilder.Replacer(textbuilder.Text(f), patches)
+    tmp = rep.get_text()
+    back = [rep.get_input_pos(p) for p in range(len(tmp) + 1)]
+    cases.append('(%s, %s, %s)' % (S(f), S(tmp), core.zlist(back)))
+    used.append(f)
+  check = ('fun c => match c with (f, tmp, back) => teq (tmp_text f) tmp && '
+           'teq (map (get_input_pos (replacer_offsets (tmp_patches f))) (map Z.of_nat (seq 0 (List.length back)))) back end')
+  return cases, used, check
+
+
+def field_cases(ctx, formulas):
+  import collections
+  import gencode
+  Col = collections.namedtuple('Col', 'colId formula type reverseColId')
+  cases, used = [], []
+  for f in formulas:
+    g = gencode.GenCode()
+    try:
+      text = g._make_formula_field(Col('X', f, 'Any', 0), 'T', indent='  ').get_text()
+      body = list(g._new_formula_cache.values())[0].get_text()
+    except Exception:              # pylint: disable=broad-except
+      continue
+    cases.append('(%s, %s)' % (S(body), S(text)))
+    used.append(f)
+  check = ('fun c => teq (formula_field [32; 32] [88] [114; 101; 99; 44; 32; 116; 97; 98; 108; 101] (fst c)) (snd c)')
+  return cases, used, check
 
 
 # ------------------------------------------------------------------------------------------------
@@ -372,11 +522,15 @@ def ref_dedent(text):
   return '\n'.join(l[len(margin):] if l.startswith(margin) else l for l in lines)
 
 
-def ref_translate(formula):
+def ref_translate(formula, emulate_mlstring=False):
   """Independent reading of a formula: the text as CPython reads it (universal newlines), common indentation
   removed, `$name` -> `rec.name` wherever the tokenizer sees the operator `$` directly followed by a NAME token
   (so never inside string or comment tokens).  Raises SyntaxError/tokenize.TokenError if it does not tokenize."""
   text = ref_dedent(UNIVERSAL_NL.sub('\n', formula))
+  if emulate_mlstring:
+    text = mlstring_bug_variant(text)
+    if text is None:
+      raise SyntaxError('nothing to emulate')
   lines = text.split('\n')
   starts = [0]
   for l in lines:
@@ -430,12 +584,12 @@ def assigns_rec_attr(tree):
   return False
 
 
-def reference(formula, rows, namespace):
+def reference(formula, rows, namespace, emulate_mlstring=False):
   """('invalid', why) | ('unjudged', why) | ('values', [cell, ...]) -- what the formula text means by itself."""
   if not formula.strip():
     return ('unjudged', 'blank formula (type default)')
   try:
-    src = ref_translate(formula)
+    src = ref_translate(formula, emulate_mlstring)
     tree = ast.parse(src)
   except (SyntaxError, tokenize.TokenError, ValueError, IndentationError) as e:
     return ('invalid', 'does not parse: %s' % (type(e).__name__,))
@@ -483,10 +637,9 @@ def reference(formula, rows, namespace):
 SYNTAX_NAMES = ('SyntaxError', 'IndentationError', 'TabError')
 
 
-def mlstring_bug_variant(formula, width=4):
-  """The formula with `width` blanks removed from the whitespace-only lines inside multi-line string tokens
-  (what `indented_text.replace('\\n' + indent, '\\n')` does to lines that _indent left alone)."""
-  text = UNIVERSAL_NL.sub('\n', formula)
+def mlstring_bug_variant(text, width=4):
+  """The (dedented, "\\n"-only) text with `width` blanks removed from the whitespace-only lines inside multi-line
+  string tokens (what `indented_text.replace('\\n' + indent, '\\n')` does to lines that _indent left alone)."""
   try:
     toks = list(tokenize.generate_tokens(io.StringIO(text).readline))
   except (SyntaxError, tokenize.TokenError):
@@ -536,9 +689,8 @@ def judge(doc, formula, got_x, s1, s2):
      not all(w[0] == 'E' and w[1] in SYNTAX_NAMES for w in want):
     # a formula that is valid by itself was turned into a syntax-error stub
     return ('valid-formula-rejected', 'cells %r, the text means %r' % (got, want))
-  variant = mlstring_bug_variant(formula)
-  if variant is not None:
-    ref3 = reference(variant, doc.rows, ns)
+  if True:
+    ref3 = reference(formula, doc.rows, ns, emulate_mlstring=True)
     if ref3[0] == 'values' and all(same_cell(g, w) for g, w in zip(got, ref3[1])):
       return ('wrong-value:mlstring-blank-line',
               'whitespace-only line inside a multi-line string lost 4 blanks: cells %r, the text means %r' % (got, want))
@@ -552,8 +704,7 @@ def classify_raise(formula, exc, raises):
   """Names the cause of an escaping exception by repairing the input (causal probes).  `raises(f)` re-runs the
   same action with another formula on a fresh document and returns the exception or None."""
   import itertools
-  fixes = [('cr-line-ends', lambda f: '\r' in f, lambda f: UNIVERSAL_NL.sub('\n', f)),
-           ('form-feed', lambda f: '\x0c' in f, lambda f: f.replace('\x0c', '')),
+  fixes = [('form-feed', lambda f: '\x0c' in f, lambda f: f.replace('\x0c', '')),
            ('nul', lambda f: '\x00' in f, lambda f: f.replace('\x00', ''))]
   present = [fx for fx in fixes if fx[1](formula)]
   for k in range(1, len(present) + 1):
@@ -562,9 +713,7 @@ def classify_raise(formula, exc, raises):
       for _n, _p, fix in combo:
         g = fix(g)
       if raises(g) is None:
-        first = combo[0][0]
-        return ('cr-line-ends' if first == 'cr-line-ends' else 'raises:' + first,
-                'repaired by removing: ' + ', '.join(c[0] for c in combo))
+        return 'raises:' + combo[0][0], 'repaired by removing: ' + ', '.join(c[0] for c in combo)
   if isinstance(exc, RecursionError):
     return 'raises:recursion', 'parser/compiler recursion limit'
   if isinstance(exc, SyntaxError):
@@ -610,6 +759,19 @@ def run_formula(doc, formula, path):
 
 
 def check_one(doc, formula, path, fresh_raises):
+  """The oracle for one formula on `doc`, with the causal probe for "\\r": when a text holding "\\r" fails, the same
+  text with the line ends CPython reads ("\\r\\n", "\\r" -> "\\n") is tried on a fresh document.  If that passes the
+  failure is the "\\r" defect; if not, it is classified as what the normalised text shows."""
+  v = check_raw(doc, formula, path, fresh_raises)
+  if v and '\r' in formula:
+    v2 = check_raw(Doc(), UNIVERSAL_NL.sub('\n', formula), path, fresh_raises)
+    if v2 is None:
+      return ('cr-line-ends', 'fails with "\\r" line ends, passes with "\\n": %s: %s' % v)
+    return (v2[0], 'with "\\r" read as line ends: %s | as given: %s: %s' % (v2[1], v[0], v[1]))
+  return v
+
+
+def check_raw(doc, formula, path, fresh_raises):
   """The oracle for one formula on `doc`.  Returns None or (kind, what)."""
   try:
     x, s1, s2 = run_formula(doc, formula, path)
@@ -621,15 +783,6 @@ def check_one(doc, formula, path, fresh_raises):
                                              type(e).__name__, str(e)[:120], why))
   v = judge(doc, formula, x, s1, s2)
   if v:
-    if '\r' in formula and v[0] != 'sound-column-changed':
-      # causal probe: the same text with the line ends CPython would read ("\r\n", "\r" -> "\n")
-      d2 = Doc()
-      try:
-        x2, t1, t2 = run_formula(d2, UNIVERSAL_NL.sub('\n', formula), path)
-        if judge(d2, UNIVERSAL_NL.sub('\n', formula), x2, t1, t2) is None:
-          return ('cr-line-ends', '%s with "\\r" line ends (fine with "\\n"): %s' % v)
-      except Exception:      # pylint: disable=broad-except
-        pass
     return v
   # the document keeps working: a data change recomputes the sound columns
   a0 = doc.rows[0][0]
@@ -765,7 +918,7 @@ def gen_formula(rng):
 
 
 LISTED = ['x = 1\rreturn x', 'foo(\rbar', '"""a\n    \nb"""', '  x = $A\r\n\r\n  x + 1', '\x0c$A', 'await x', '$A\r',
-          '# c\r$A', '1\x00', '  $A\r  + 1']
+          '# c\r$A', '1\x00', '  $A\r  + 1', '1+' * 3000 + '1']
 
 
 def search(ctx):
@@ -800,11 +953,19 @@ def search(ctx):
         break
     else:
       ctx.bump('engine-outcome:ok')
+  ctx.log('engine oracle: %d formulas' % len(formulas))
+
+
+def witness_formula(w):
+  if 'formula' in w:
+    return w['formula']
+  unit, times, tail = w['formula_repeat']          # a long formula written compactly
+  return unit * times + tail
 
 
 def replay_full(w):
   doc = Doc()
-  return check_one(doc, w['formula'], w.get('path', 'modify'), fresh_raises_fn(w.get('path', 'modify')))
+  return check_one(doc, witness_formula(w), w.get('path', 'modify'), fresh_raises_fn(w.get('path', 'modify')))
 
 
 def replay(ctx, w):
